@@ -40,7 +40,8 @@ RULE = (
     'tempos (a labelled class uses non-dyadic tempos under 1e-9 tolerance) '
     'and quants/phases. Non-trivial = a nested spawn across two different '
     'clocks or a TempoClock with tempo != 1 is used (RT: and injected '
-    'jitter > 0). Distinct by sha1 of the program (+tape).')
+    'jitter > 0). Distinct by sha1 of the program (+tape).'
+    ' rt_load stage: the same programs with steps that take 1/16-1/2 s of physical time; play ops use r.play, @routine.run or Routine.run; routines may end by yielding inf.')
 ASSUMPTIONS = [
     'TempoClock.play without quant quantises to the next whole beat '
     '(Quant() defaults), as documented.',
